@@ -5,8 +5,11 @@
   Facts: NutsModel/Facts/C02.lean is REGENERATED from /repo on every run.
 -/
 import NutsModel.C02.Token
+import NutsModel.C02.History
 import NutsModel.Facts.C02
 import NutsProofs.Lemmas.C02
+import NutsProofs.Lemmas.C02b
+import NutsProofs.Lemmas.C02c
 
 namespace Nuts.C02.Props
 open Nuts.C02
@@ -117,8 +120,15 @@ theorem fact_introspection_fields :
 /-- **every** standard member name of the introspection response is a reserved claim name -/
 theorem fact_reserved_covers_fields : ∀ k ∈ Facts.C02.introspectionFields, k ∈ Facts.C02.reservedClaims := by decide
 
-/-- the credential-less branch of `validatePresentationSigner` also compares with the expected subject -/
-theorem fact_empty_vp_checked : Facts.C02.emptyVpBranchComparesExpected = true := by decide
+/-- the credential-less branch of `validatePresentationSigner` also compares with the expected subject; the
+    conditions of the function are the ones `validateSigner` mirrors -/
+theorem fact_empty_vp_checked :
+    Facts.C02.emptyVpBranchComparesExpected = true ∧
+    Facts.C02.validateSignerConds =
+      ["len(presentation.VerifiableCredential) == 0", "err != nil",
+       "!expectedCredentialSubjectDID.Empty() && !signerDID.Equals(expectedCredentialSubjectDID)",
+       "err != nil", "subjectDID == nil",
+       "!expectedCredentialSubjectDID.Empty() && !subjectDID.Equals(expectedCredentialSubjectDID)"] := by decide
 
 /-- the s2s nonce is remembered for the whole window in which the verifier accepts the presentation -/
 theorem fact_nonce_ttl_covers_window :
@@ -151,7 +161,240 @@ theorem s2s_defect_combination_rejected (cfg : Cfg) (w : World) (now : Nat) (r :
   obtain ⟨s, d, hc, _⟩ := issueS2S_ok cfg w _ now r resp hchk httl hwf h
   exact defect_contradicts_checked cfg w now r s d hc x (hds x List.mem_cons_self)
 
+/-- The vp_token-bearer grant validates only the definition the submission names. **Full statement** (every
+    definition configured for the scope is fulfilled) - FALSE of the code, see the witness below and the open
+    finding `C02:s2s-token-with-unfulfilled-required-definition`. -/
+def s2s_all_required_definitions_fulfilledStmt : Prop :=
+  ∀ (cfg : Cfg) (w w' : World) (now : Nat) (r : S2SReq) (resp : TokenResponse),
+    cfg.emptyVpChecked = true → cfg.nonceTtl ≠ 0 → (∀ vp ∈ r.vps, vp.signer ≠ some "") →
+    issueS2S cfg w now r = (w', .ok resp) →
+    ∀ defs, cfg.definitions r.scope = some defs → ∀ p ∈ defs, r.pex p.2.key = true
+
+private def witnessCfg : Cfg :=
+  { maxValidity := 5, nonceTtl := 15, tokenValidity := 900, tokenTtl := 900, codeTtl := 60, oauthNonceTtl := 60,
+    stateTtl := 60, verifierSkew := 5, second := 1, emptyVpChecked := true, reserved := Facts.C02.reservedClaims,
+    marshalOrder := Facts.C02.marshalAssignOrder, publicURL := "https://as", subjects := ["alpha"],
+    policy := [("care", [("organization", ⟨"pd_org", 0⟩), ("user", ⟨"pd_user", 1⟩)])] }
+
+private def witnessVP : VP :=
+  { created := some 100, expires := some 105, signer := some "did:web:h", subjects := [some "did:web:h"],
+    aud := ["https://as/oauth2/alpha"], nonce := "n1", challenge := "", verifies := true }
+
+/-- scope `care` requires an organization AND a user definition; a submission for the user definition alone
+    (the organization definition does NOT validate) is answered with a token -/
+private def witnessReq : S2SReq :=
+  { subject := "alpha", paramsPresent := true, clientId := "client", scope := "care", envelopeOK := true,
+    submissionOK := true, vps := [witnessVP], subDefId := "pd_user", pex := fun k => k == 1,
+    claims := fun _ => [], dpop := .absent }
+
+theorem s2s_all_required_definitions_fulfilled_false : ¬ s2s_all_required_definitions_fulfilledStmt := by
+  intro h
+  have hres : (issueS2S witnessCfg {} 100 witnessReq).2 =
+      .ok { token := "tok#0", tokenType := "Bearer", dpopKid := none, scope := "care", expiresIn := 900 } := by
+    decide
+  have hrun : issueS2S witnessCfg {} 100 witnessReq =
+      ((issueS2S witnessCfg {} 100 witnessReq).1,
+       .ok { token := "tok#0", tokenType := "Bearer", dpopKid := none, scope := "care", expiresIn := 900 }) := by
+    rw [← hres]
+  have := h witnessCfg {} _ 100 witnessReq _ rfl (by decide) (by decide) hrun
+    [("organization", ⟨"pd_org", 0⟩), ("user", ⟨"pd_user", 1⟩)] rfl ("organization", ⟨"pd_org", 0⟩) (by decide)
+  revert this
+  decide
+
+/-- non-vacuity of `s2s_token_only_if`: the witness request meets its hypotheses and is answered 200 -/
+example : (∃ resp, (issueS2S witnessCfg {} 100 witnessReq).2 = .ok resp) ∧ witnessCfg.emptyVpChecked = true ∧
+    witnessCfg.nonceTtl ≠ 0 ∧ ∀ vp ∈ witnessReq.vps, vp.signer ≠ some "" :=
+  ⟨⟨{ token := "tok#0", tokenType := "Bearer", dpopKid := none, scope := "care", expiresIn := 900 }, by decide⟩,
+   rfl, by decide, by decide⟩
+
+/-- non-vacuity of `s2s_defect_combination_rejected`: three defects at once (wrong audience, over-long validity,
+    failing verification) - all present, rejected at the first one in code order -/
+example :
+    let r := { witnessReq with vps := [{ witnessVP with aud := ["https://evil"], expires := some 200, verifies := false }] }
+    (∀ x ∈ [Defect.wrongAudience, Defect.overlongOrUndated, Defect.verifyFails], x.present witnessCfg {} 100 r) ∧
+    (issueS2S witnessCfg {} 100 r).2 = .err "invalid_request/vp-valid-too-long" := by
+  refine ⟨?_, by decide⟩
+  intro x hx
+  simp only [List.mem_cons, List.mem_nil_iff, or_false] at hx
+  rcases hx with rfl | rfl | rfl
+  · exact ⟨_, List.mem_cons_self, by decide⟩
+  · refine ⟨_, List.mem_cons_self, ?_⟩
+    rintro ⟨c, e, hc, he, hle⟩
+    have hc' : some 100 = some c := hc
+    have he' : some 200 = some e := he
+    cases hc'; cases he'
+    revert hle; decide
+  · exact ⟨_, List.mem_cons_self, by decide⟩
+
+/-! ### the replay window -/
+
+/-- **nonce_covers_window.** If the nonce TTL covers maximum validity + twice the verifier's skew, then after a
+    presentation has been accepted at `t₁`, EVERY later vp_token-bearer request (after any history of other
+    operations) that carries a presentation with the same nonce while the first presentation is still inside the
+    verifier's acceptance window is refused - so no presentation can be used twice. -/
+theorem nonce_covers_window (cfg : Cfg) (sha : String → String)
+    (hwin : cfg.maxValidity + 2 * cfg.verifierSkew ≤ cfg.nonceTtl)
+    (hchk : cfg.emptyVpChecked = true) (httl : cfg.nonceTtl ≠ 0)
+    (w w₁ : World) (t₁ : Nat) (r₁ : S2SReq) (resp₁ : TokenResponse) (hwf₁ : ∀ vp ∈ r₁.vps, vp.signer ≠ some "")
+    (h₁ : issueS2S cfg w t₁ r₁ = (w₁, .ok resp₁))
+    (vp : VP) (hvp : vp ∈ r₁.vps)
+    (between : List (Nat × Op)) (hlater : ∀ x ∈ between, t₁ ≤ x.1)
+    (t₂ : Nat) (r₂ : S2SReq) (hwf₂ : ∀ vp ∈ r₂.vps, vp.signer ≠ some "")
+    (vp' : VP) (hvp' : vp' ∈ r₂.vps) (hsame : vp'.nonce = vp.nonce)
+    (hstill : ∀ c e, vp.created = some c → vp.expires = some e → ldValidAt cfg.verifierSkew t₂ c (some e) = true) :
+    ∀ resp, (issueS2S cfg (after cfg sha between w₁) t₂ r₂).2 ≠ .ok resp := by
+  obtain ⟨s, d, hc, heff⟩ := issueS2S_ok cfg w w₁ t₁ r₁ resp₁ hchk httl hwf₁ h₁
+  obtain ⟨c, e, hcr, hex, hval⟩ := (hc.pre vp hvp).validity
+  -- accepted at t₁: created ≤ t₁ + skew
+  have hv := hc.verified vp hvp
+  have hc1 : c ≤ t₁ + cfg.verifierSkew := by
+    unfold vpVerifies at hv
+    rw [hcr, hex] at hv
+    simp only [Bool.and_eq_true] at hv
+    have := hv.2
+    unfold ldValidAt at this
+    split at this
+    · cases this
+    · omega
+  -- still valid at t₂: t₂ ≤ expires + skew
+  have hc2 : t₂ ≤ e + cfg.verifierSkew := by
+    have := hstill c e hcr hex
+    unfold ldValidAt at this
+    split at this
+    · cases this
+    · simp only at this
+      split at this
+      · cases this
+      · omega
+  have hb : t₂ ≤ t₁ + cfg.nonceTtl := by omega
+  have hlive := heff.nonces vp hvp
+  have hlive' := after_live cfg sha httl vp.nonce (t₁ + cfg.nonceTtl) between w₁
+    (fun x hx => by have := hlater x hx; omega) hlive
+  rw [← hsame] at hlive'
+  exact issueS2S_rejects_live cfg _ t₂ r₂ hchk httl hwf₂ vp' hvp' _ hlive' hb
+
+/-- with the regenerated durations the window is covered -/
+theorem nonce_covers_window_today (ns : Nat) :
+    (Facts.C02.s2sMaxValidityMs * ns) + 2 * (Facts.C02.verifierMaxSkewMs * ns) ≤ Facts.C02.s2sNonceTtlMs * ns := by
+  have := fact_nonce_ttl_covers_window
+  calc (Facts.C02.s2sMaxValidityMs * ns) + 2 * (Facts.C02.verifierMaxSkewMs * ns)
+      = (Facts.C02.s2sMaxValidityMs + 2 * Facts.C02.verifierMaxSkewMs) * ns := by
+        rw [Nat.add_mul, Nat.mul_assoc]
+    _ ≤ Facts.C02.s2sNonceTtlMs * ns := Nat.mul_le_mul_right ns this
+
+/-! ### authorization-code grant -/
+
+/-- **token_only_if (authorize response, OpenID4VP verifier side).** An accepted `direct_post` submission implies:
+    the state names a live session of this tenant, every presentation carries the same non-empty nonce/challenge
+    and that nonce is mapped to exactly this state (and is deleted by this call), every presentation is signed by
+    `s`, all its credentials have subject `s`, it is addressed to this tenant and verifies; the submission validates
+    against a definition the session requires and has not yet fulfilled. A code is issued only when nothing is
+    pending. NOTE (interpretation): this flow enforces NO maximum validity and keeps no seen-nonce list. -/
+theorem authorize_response_only_if (cfg : Cfg) (w w' : World) (now : Nat) (r : AuthResp) (out : AuthOut)
+    (hchk : cfg.emptyVpChecked = true) (hwf : ∀ vp ∈ r.vps, vp.signer ≠ some "")
+    (h : authorizeResponse cfg w now r = (w', .ok out)) :
+    ∃ state session n s d, AuthChecked cfg w now r state session n s d ∧
+      AuthEffect cfg w w' now r state session n d out :=
+  authorizeResponse_ok cfg w w' now r out hchk hwf h
+
+/-- **token_only_if (authorization_code grant).** A 200 implies: the code is in the code store (so an accepted
+    authorize response put it there, see `authorize_response_only_if`), the client id equals the one of the
+    authorization request, the challenge method is S256 and `S256(code_verifier)` equals the stored challenge;
+    issuer, client and scope of the token are the session's; the code is deleted. -/
+theorem code_token_only_if (cfg : Cfg) (sha : String → String) (w w' : World) (now : Nat) (r : CodeReq)
+    (resp : TokenResponse) (h : issueCode cfg sha w now r = (w', .ok resp)) :
+    ∃ code verifier session, CodeChecked cfg sha w now r code verifier session ∧
+      CodeEffect cfg w w' now r code session resp :=
+  issueCode_ok cfg sha w w' now r resp h
+
+/-- an authorization code that has been presented once (by a known tenant, whatever the outcome) never buys a
+    token afterwards, whatever happens in between (sequential histories; races are C05) -/
+theorem code_redeemed_at_most_once (cfg : Cfg) (sha : String → String) (w : World) (t₁ : Nat) (r₁ : CodeReq) (c : String)
+    (hs : r₁.subject ∈ cfg.subjects) (hc₁ : r₁.code = some c) (hissued : ∃ n, c = codeName n ∧ n < w.nextCode)
+    (between : List (Nat × Op)) (t₂ : Nat) (r₂ : CodeReq) (hc₂ : r₂.code = some c) :
+    ∀ resp, (issueCode cfg sha (after cfg sha between (issueCode cfg sha w t₁ r₁).1) t₂ r₂).2 ≠ .ok resp := by
+  have hgone : CodeGone (issueCode cfg sha w t₁ r₁).1 c := by
+    refine ⟨issueCode_burns cfg sha w t₁ r₁ c hs hc₁, ?_⟩
+    obtain ⟨n, hn, hlt⟩ := hissued
+    have hnc : (issueCode cfg sha w t₁ r₁).1.nextCode = w.nextCode := by
+      rcases issueCode_frame cfg sha w t₁ r₁ with ⟨resp, hr⟩ | _
+      · have h : issueCode cfg sha w t₁ r₁ = ((issueCode cfg sha w t₁ r₁).1, .ok resp) := by rw [← hr]
+        obtain ⟨_, _, _, _, heff⟩ := issueCode_ok cfg sha w _ t₁ r₁ resp h
+        exact heff.others.2.2.2.1
+      · -- no token: the world differs from `w` in the code store only
+        unfold issueCode
+        repeat' (first
+          | rfl
+          | split
+          | simp only)
+        all_goals
+          rename_i w2 _ hcreate
+          have hw2 := congrArg Prod.fst hcreate
+          simp only at hw2
+          rw [← hw2, (createAccessToken_other _ _ _ _ _ _ _ _).2.2]
+    exact ⟨n, hn, by rw [hnc]; exact hlt⟩
+  exact issueCode_rejects_gone cfg sha _ t₂ r₂ c hc₂ (after_codeGone cfg sha c between _ hgone).1
+
 /-! ### introspection -/
+
+/-- **active only if this node issued it.** After ANY history from the empty server, a token that introspection
+    reports active was issued by an operation of that history (a 200 of the token endpoint under that name), has not
+    expired, and issuer / client / scope / iat / exp / key binding / claims in the answer are those of the record
+    stored at issuance. -/
+theorem introspect_active_only_if_issued (cfg : Cfg) (sha : String → String) (hchk : cfg.emptyVpChecked = true)
+    (httl : cfg.nonceTtl ≠ 0) (httl' : cfg.tokenTtl ≠ 0) (hist : List (Nat × Op)) (hwf : HistWF hist)
+    (now : Nat) (tok : String) (r : Introspection)
+    (h : introspect cfg (after cfg sha hist {}) now tok = .ok (some r)) :
+    ∃ pre t op post rec, hist = pre ++ (t, op) :: post ∧ Issued cfg sha (after cfg sha pre {}) t op tok rec ∧
+      now ≤ t + cfg.tokenTtl ∧ now ≤ t + cfg.tokenValidity ∧
+      r.active = true ∧ r.iss = some (jstr rec.issuer) ∧ r.clientId = some (jstr rec.clientId) ∧
+      r.scope = some (jstr rec.scope) ∧ r.iat = some (t / cfg.second) ∧
+      r.exp = some ((t + cfg.tokenValidity) / cfg.second) ∧
+      r.cnf = rec.dpop.map (fun d => "{\"jkt\":" ++ jstr d.jkt ++ "}") ∧ r.additional = rec.claims := by
+  obtain ⟨rec, _, hget, hexp, _, hr⟩ := introspect_some cfg _ now tok r h
+  rcases token_in_store_was_issued cfg sha hchk httl httl' hist {} hwf now tok rec hget with h0 | ⟨pre, t, op, post, heq, hiss, hle⟩
+  · simp [Store.get, Store.find] at h0
+  · obtain ⟨resp, h1, h2, h3, h4, h5, hia, hex⟩ := hiss
+    refine ⟨pre, t, op, post, rec, heq, ⟨resp, h1, h2, h3, h4, h5, hia, hex⟩, hle, by rw [← hex]; exact hexp, ?_⟩
+    rw [hr]
+    refine ⟨rfl, rfl, rfl, rfl, by rw [hia], by rw [hex], rfl, rfl⟩
+
+/-- **introspect_faithful.** For a token issued at `t` under `name`: whatever happens afterwards (any later
+    history), at every time `now` the stored record is retrievable iff `now ≤ t + ttl`; hence introspection answers
+    inactive exactly after expiry, and before expiry it is a function of the issuance record and `now` only (error
+    for a reserved claim name, otherwise the standard members of the record). -/
+theorem introspect_faithful (cfg : Cfg) (sha : String → String) (hchk : cfg.emptyVpChecked = true)
+    (httl : cfg.nonceTtl ≠ 0) (httl' : cfg.tokenTtl ≠ 0) (hsame : cfg.tokenTtl = cfg.tokenValidity)
+    (pre post : List (Nat × Op)) (t : Nat) (op : Op) (name : String) (rec : TokenRec)
+    (hwf : HistWF (pre ++ (t, op) :: post))
+    (hiss : Issued cfg sha (after cfg sha pre {}) t op name rec) (now : Nat) :
+    introspect cfg (after cfg sha (pre ++ (t, op) :: post) {}) now name =
+      if now ≤ t + cfg.tokenValidity then
+        (match firstReserved cfg.reserved rec.claims with
+         | some k => .err ("reserved-claim:" ++ k)
+         | none => .ok (some
+            { active := true, cnf := rec.dpop.map (fun d => "{\"jkt\":" ++ jstr d.jkt ++ "}"),
+              iat := some (t / cfg.second), exp := some ((t + cfg.tokenValidity) / cfg.second),
+              iss := some (jstr rec.issuer), clientId := some (jstr rec.clientId), scope := some (jstr rec.scope),
+              vps := some (toString rec.vps), pds := some (renderDefs rec.defs),
+              pss := some (renderSubs rec.submissions), additional := rec.claims }))
+      else .ok none := by
+  have hget := issued_token_stays cfg sha hchk httl httl' pre post t op name rec hwf hiss now
+  obtain ⟨_, _, _, hname, _, _, hia, hex⟩ := hiss
+  unfold introspect
+  rw [if_neg (by rw [hname]; exact tokName_ne_empty _), hget, hsame]
+  by_cases hle : now ≤ t + cfg.tokenValidity
+  · rw [if_pos hle, if_pos hle]
+    simp only
+    rw [if_neg (by rw [hex]; omega), hia, hex]
+    cases firstReserved cfg.reserved rec.claims <;> rfl
+  · rw [if_neg hle, if_neg hle]
+
+/-- introspection reads nothing but the token store -/
+theorem introspect_depends_on_token_store_only (cfg : Cfg) (w₁ w₂ : World) (h : w₁.tokens = w₂.tokens)
+    (now : Nat) (tok : String) : introspect cfg w₁ now tok = introspect cfg w₂ now tok := by
+  unfold introspect; rw [h]
+
 
 /-- **claims_cannot_override.** If every standard member name is reserved, then for every stored token and every
     constraint-id map: either introspection errors, or in the marshalled RFC7662 answer EVERY standard member has
